@@ -77,6 +77,8 @@ func regionMain(args []string) {
 					runResize(c, emit)
 				case "minimize":
 					runMinimize(c, emit)
+				case "locator":
+					runLocator(c, emit)
 				}
 			}
 		}
@@ -171,6 +173,37 @@ func runMinimize(c J, emit func(J)) {
 			}()
 			ev["circ"] = regionsToJSON(gts.InvertCircular(regionFromJSON(cv), n))
 		}()
+		emit(ev)
+	}
+}
+
+// runLocator: one record, a batch of locator strings; logs the regions that
+// gts.AsLocator(string)(record) returns (no judgement here).
+func runLocator(c J, emit func(J)) {
+	id := asStr(c["id"])
+	rec := c["rec"].(map[string]interface{})
+	for _, lv := range asList(c["locs"]) {
+		lm := lv.(map[string]interface{})
+		locstr := asStr(lm["locstr"])
+		ev := J{"ev": "locator", "case": id, "loc": lm["loc"], "locstr": locstr, "panic": "", "err": "", "regions": []interface{}{}}
+		func() {
+			defer func() {
+				if e := recover(); e != nil {
+					ev["panic"] = fmt.Sprint(e)
+				}
+			}()
+			seq := makeSeq(rec)
+			ev["pre"] = observe(seq, false)
+			locate, err := gts.AsLocator(locstr)
+			if err != nil {
+				ev["err"] = err.Error()
+				return
+			}
+			ev["regions"] = regionsToJSON(locate(seq))
+		}()
+		if _, ok := ev["pre"]; !ok {
+			ev["pre"] = J{"res": []int{}, "feats": []interface{}{}}
+		}
 		emit(ev)
 	}
 }
